@@ -296,7 +296,7 @@ pub fn run(tape: &[u8], cx: &Cx) -> Outcome {
                         );
                         return o;
                     }
-                    None => {}
+                    None => o.tag("claim-not-judged(product-too-big)"),
                 }
             }
         }
@@ -306,7 +306,12 @@ pub fn run(tape: &[u8], cx: &Cx) -> Outcome {
         if matches!(prog.ins[slot], Ins::Union(..) | Ins::UnionList(..)) {
             o.evals += 1;
             let dfa = &dfas[slot];
-            if let BisimResult::Differ { word, crate_says, reference_says } = bisim_term(&mut mgr, &prog.atoms, dfa, dfa.start, terms[slot], 800) {
+            let res = bisim_term(&mut mgr, &prog.atoms, dfa, dfa.start, terms[slot], 800);
+            if matches!(res, BisimResult::Capped) {
+                o.tag("bisim-capped");
+                continue;
+            }
+            if let BisimResult::Differ { word, crate_says, reference_says } = res {
                 let class = if reference_says && !crate_says { "C16/union-loses-strings" } else { "C16/union-gains-strings" };
                 o.fail(class, format!("r{} = {} (term {}): membership of {} is {} but the union of the operands says {}", slot, render_ins(&prog.ins[slot]), terms[slot], show_str(&word), crate_says, reference_says));
                 return o;
